@@ -49,7 +49,9 @@ def runs(draw, tier):
             "se": draw(st.sampled_from([1, 1, 0, 2, 3, 5])),
             # staged training: a second fit() on the same model with another learning rate, re-using the caller's optimizer_args dict
             "stage2_lr": draw(st.one_of(st.none(), st.floats(1e-3, 1.0, allow_nan=False, width=64))),
-            "opt_args": draw(st.sampled_from(["none", "empty_dict", "momentum0"]))}
+            "opt_args": draw(st.sampled_from(["none", "empty_dict", "momentum0"])),
+            "stage3_lr": draw(st.one_of(st.none(), st.none(), st.floats(1e-3, 1.0, allow_nan=False, width=64))),
+            "stage2_same_lr": draw(st.booleans()), "reinit_between": draw(st.integers(0, 2)) == 0}
 
 
 NAMES = {"weights": "W", "weights_W": "W", "weights_U": "U", "visible_bias": "b", "hidden_bias": "c", "aux_bias": "d"}
@@ -80,7 +82,7 @@ def check(case):
     state = gen.build_state(sc)
     rows, probs = born_rows(case, with_probs=True)
     if min(probs) < MIN_ROW_PROB:
-        return {"nontrivial": False, "excluded": 1, "labels": ["excluded:row-probability<1e-9"]}
+        return {"nontrivial": False, "excluded": 1, "labels": ["excluded:ill-conditioned-row"]}
     N = len(rows)
     data = R.rows_from_indices([k for _, k in rows], n)
     bases = np.array([list(b) for b, _ in rows]).reshape(N, n)
@@ -134,10 +136,21 @@ def check(case):
     lr_of_step = [case["lr"]] * len(log["steps"])
     stage1_steps = len(log["steps"])
     stage1_epochs = len(log["epochs"])
+    if case.get("stage2_lr") is not None and case.get("stage2_same_lr"):
+        case = dict(case, stage2_lr=case["lr"])          # an identical optimizer configuration in the second fit()
     if case.get("stage2_lr") is not None and not diverged[0]:
+        if case.get("reinit_between"):
+            state.reinitialize_parameters()              # new parameter objects between two fit() calls
+            gen.set_net(state.rbm_am, sc["am"])
+            if sc.get("ph"):
+                gen.set_net(state.rbm_ph, sc["ph"])
         kw2 = dict(kw, lr=case["stage2_lr"], epochs=1, starting_epoch=1)
         state.fit(data, **kw2)
         lr_of_step += [case["stage2_lr"]] * (len(log["steps"]) - stage1_steps)
+        if case.get("stage3_lr") is not None and not diverged[0]:
+            n2 = len(log["steps"])
+            state.fit(data, **dict(kw, lr=case["stage3_lr"], epochs=1, starting_epoch=1))      # third fit() call on the same objects
+            lr_of_step += [case["stage3_lr"]] * (len(log["steps"]) - n2)
     if oargs is not None:
         require(oargs == oargs_keep, "optimizer_args-mutated", f"fit() modified the caller's optimizer_args dict: {oargs} (was {oargs_keep})")
 
@@ -145,7 +158,7 @@ def check(case):
         return {"nontrivial": False, "excluded": 1, "labels": ["diverged"]}
     nb = -(-N // case["pbs"])
     steps = log["steps"]
-    total_epochs = case["epochs"] + (1 if case.get("stage2_lr") is not None else 0)
+    total_epochs = case["epochs"] + (1 if case.get("stage2_lr") is not None else 0) + (1 if (case.get("stage2_lr") is not None and case.get("stage3_lr") is not None) else 0)
     require(len(steps) == nb * total_epochs, "step-count", f"{len(steps)} optimizer steps for {total_epochs} epoch(s) of {nb} batch(es): exactly one step per batch expected")
     # every positive batch row is a row of the training data, each epoch uses each row once (C07's statement; asserted here because
     # the reference gradient below is computed from the batch the library actually used)
@@ -162,7 +175,7 @@ def check(case):
     for ti, (stp, bt, ch) in enumerate(zip(steps, log["batches"], log["vk"])):
         ep = stp["epoch"]
         stage2 = ti >= stage1_steps
-        ep_in_stage = ep - stage1_epochs if stage2 else ep
+        ep_in_stage = 1 if stage2 else ep        # stages 2 and 3 are single-epoch fits
         want_lr = lr_of_step[ti] * (case["gamma"] ** (ep_in_stage - 1) if case["gamma"] is not None else 1.0)
         require(abs(stp["lr"] - want_lr) <= 1e-12 * want_lr, "lr-schedule",
                 f"step {ti} (epoch #{ep}): learning rate {stp['lr']} but expected {want_lr} (scheduler must advance exactly once per epoch)")
@@ -170,7 +183,7 @@ def check(case):
         vk = ch["vk"]
         require(vk.shape == bt["neg"].shape and bool(torch.all((vk == 0) | (vk == 1))), "vk-shape", "chain end state is not a 0/1 array with one row per negative-batch row")
         require(torch.equal(ch["start"], bt["neg"]), "chain-start", "Gibbs chains were not started from the negative batch")
-        if ti > 0:
+        if ti > 0 and not (case.get("reinit_between") and ti == stage1_steps):
             prev = steps[ti - 1]["after"]
             require(all(torch.equal(prev[net][pn], stp["before"][net][pn]) for net in nets for pn in prev[net]), "params-changed-between-steps",
                     "parameters changed outside optimizer.step()")
